@@ -7,7 +7,7 @@ different rule contexts, rules / types that only a subclass defines), interleave
 clear_caches(), through several entry points; every outcome (accepted / SchemaError /
 other exception, and the validation of a document afterwards) is compared with the
 outcome of the same history in which the cache is cleared before every submission.
-A difference is matched against the known findings F13a-e by the scenario that
+A difference is matched against the known findings F13a-g by the scenario that
 produced it; any other difference is a violation.
 Port `hkey`: the Lean model of the cache key (Model/Cache.lean) against
 `cerberus.utils.mapping_hash` on pairs of mappings: equal keys in the model iff equal
@@ -16,10 +16,10 @@ hashes in the code.
 import copy
 import random
 
-from cerberus import Validator, SchemaError, TypeDefinition
+from cerberus import Validator, SchemaError, TypeDefinition, schema_registry, rules_set_registry
 from cerberus.utils import mapping_hash
 
-from .. import codec, real, cases, families
+from .. import codec, real, cases, families, schemas
 from ..lean import Driver
 
 
@@ -65,19 +65,56 @@ def scenarios(rng, g):
     """yield lists of steps: (class name, schema, doc, entry, tag)"""
     base = g.schema()
     doc = g.document(base)
-    kind = rng.choice(['plain', 'plain', 'type', 'hash', 'string', 'context', 'subclass_rule', 'subclass_type', 'corrupt'])
+    kind = rng.choice(['plain', 'plain', 'type', 'hash', 'string', 'context', 'subclass_rule', 'subclass_type', 'corrupt',
+                       'corrupt', 'corrupt', 'corrupt', 'nested_list', 'nested_list', 'registry', 'recursive'])
     e = lambda: rng.choice(['ctor', 'setter', 'update'])
     if kind == 'plain':
         other = g.schema()
         return kind, [('V', base, doc, e(), None), ('VV', base, doc, e(), None), ('V', other, doc, e(), None),
                       ('V', base, doc, e(), None)]
     if kind == 'corrupt':
-        bad = copy.deepcopy(base)
-        f = next(iter(bad))
-        if isinstance(bad[f], dict):
-            bad[f]['no_such_rule'] = 1
-        return kind, [('V', base, doc, e(), None), ('V', bad, doc, e(), None), ('V', base, doc, e(), None),
-                      ('V', bad, doc, e(), None)]
+        # single-point corruptions at any rule-set position (sub-schemas, *of members, keys/values rules, items):
+        # parts of the intact schema are cached when the corrupted one arrives
+        steps = [('V', base, doc, e(), None)]
+        for ckind, path, bad in schemas.corruptions(rng, base, k=4):
+            if ckind == 'forbidden_in_of':
+                continue            # a normalization rule in an *of member: that is the rule-context finding F13d
+            steps.append(('V', bad, doc, e(), None))
+            if rng.random() < 0.3:
+                steps.append(('V', base, doc, e(), None))
+        return kind, steps
+    if kind == 'nested_list':
+        # a list constraint and the same list wrapped in a list must not share a key
+        var, done = copy.deepcopy(base), [False]
+
+        def wrap(v, depth=0):
+            if isinstance(v, dict):
+                for k in list(v):
+                    if isinstance(v[k], list) and v[k] and not done[0] and rng.random() < 0.5:
+                        v[k] = [v[k]]
+                        done[0] = True
+                    else:
+                        wrap(v[k], depth + 1)
+            elif isinstance(v, list):
+                for x in v:
+                    wrap(x, depth + 1)
+        wrap(var)
+        if not done[0]:
+            var = {'f': {'dependencies': [['a', 'b']]}}
+            base = {'f': {'dependencies': ['a', 'b']}}
+            doc = {}
+        return kind, [('V', base, doc, e(), None), ('V', var, doc, e(), None)]
+    if kind == 'registry':
+        # a reference is cached by name: redefine the name between two submissions (known finding F13f)
+        ref = {'a': 'r0'}
+        return kind, [('V', ref, {'a': 1}, e(), None, {'rules': {'r0': {'type': 'integer'}}}),
+                      ('V', ref, {'a': 1}, e(), 'cache_registry_redefinition', {'rules': {'r0': {'type': 'no_such_type'}}})]
+    if kind == 'recursive':
+        # a part of a rejected self-referential definition, submitted on its own afterwards (known finding F13g)
+        node = {'v': {'type': 'no_such_type'}, 'kids': {'type': 'list', 'schema': {'type': 'dict', 'schema': 'node0'}}}
+        return kind, [('V', {'root': {'type': 'dict', 'schema': 'node0'}}, {}, e(), None, {'schemas': {'node0': node}}),
+                      ('V', {'x': {'type': 'list', 'schema': {'type': 'dict', 'schema': 'node0'}}}, {}, e(),
+                       'cache_part_of_rejected_recursive_definition')]
     if kind == 'type':
         a = {'f': {'type': 'dict', 'valuesrules': {'required': True}}}
         b = {'f': {'type': 'dict', 'valuesrules': {'required': 1}}}
@@ -106,11 +143,22 @@ def scenarios(rng, g):
 
 def run_history(steps, clear_every):
     Validator.clear_caches()
+    real.clear_global_state()
     outs = []
-    for cname, schema, doc, entry, tag in steps:
-        if clear_every:
-            Validator.clear_caches()
-        outs.append(submit(CLASSES[cname], schema, doc, entry))
+    try:
+        for st in steps:
+            cname, schema, doc, entry, tag = st[:5]
+            if len(st) > 5:
+                # the registries as they are when this submission is made
+                for k, v in st[5].get('rules', {}).items():
+                    rules_set_registry.add(k, copy.deepcopy(v))
+                for k, v in st[5].get('schemas', {}).items():
+                    schema_registry.add(k, copy.deepcopy(v))
+            if clear_every:
+                Validator.clear_caches()
+            outs.append(submit(CLASSES[cname], schema, doc, entry))
+    finally:
+        real.clear_global_state()
     return outs
 
 
@@ -146,6 +194,8 @@ def variants(rng, m):
     m2 = copy.deepcopy(m)
     m2['extra_key'] = 1
     out.append(('extra key', m2))
+    out.append(('list->[list]', {k: ([v] if isinstance(v, list) and v else v) for k, v in m.items()}))
+    out.append(('[x,y]->[[x],y]', {k: ([[v[0]]] + list(v[1:]) if isinstance(v, list) and len(v) > 1 else v) for k, v in m.items()}))
     return out
 
 
@@ -170,7 +220,8 @@ def run(ctx, n):
                 continue
             warm = run_history(steps, False)
             cold = run_history(steps, True)
-            jcase = {'scenario': kind, 'steps': [[c, codec.enc_val(s), codec.enc_val(d), e, t] for c, s, d, e, t in steps]}
+            jcase = {'scenario': kind, 'steps': [[st[0], codec.enc_val(st[1]), codec.enc_val(st[2]), st[3], st[4]] +
+                                                 ([codec.enc_val(st[5])] if len(st) > 5 else []) for st in steps]}
             for k, (w, c) in enumerate(zip(warm, cold)):
                 if w != c:
                     tag = steps[k][4]
